@@ -9,6 +9,7 @@ use libfuzzer_sys::fuzz_target;
 use vcore::report::Local;
 
 fuzz_target!(|data: &[u8]| {
+    checks::fz::init();
     if data.len() < 6 {
         return;
     }
